@@ -200,10 +200,18 @@ theorem emitsAt_genapiOp (env : Env) (s : State) : EmitsAt (genapiOp env) [.gena
     (emitsAt_subOp (by intro o ho hn; cases o <;> simp_all [ctrlErr, errOf]) s)
     (fun _ s' => emitsAt_pure _ s')
 
-theorem emitsAt_openCam (env : Env) (s : State) : EmitsAt (openCam env) [.ctrlOpen, .strmOpen] s := by
-  unfold openCam
-  exact emitsAt_bind' (l1 := [.ctrlOpen]) (l2 := [.strmOpen]) rfl (emitsAt_ctrlOpenOp env s)
-    (fun _ s' => emitsAt_strmOpenOp env s')
+theorem emitsAt_handlePair (b : Bool) {c s' : M Unit} {kc ks : Sub}
+    (hc : ∀ s, EmitsAt c [kc] s) (hs : ∀ s, EmitsAt s' [ks] s) (s : State) :
+    EmitsAt (handlePair b c s') (pairSubs b kc ks) s := by
+  cases b
+  · simp only [handlePair, pairSubs, Bool.false_eq_true, if_false]
+    exact emitsAt_bind' (l1 := [ks]) (l2 := [kc]) rfl (hs s) (fun _ s1 => hc s1)
+  · simp only [handlePair, pairSubs, if_true]
+    exact emitsAt_bind' (l1 := [kc]) (l2 := [ks]) rfl (hc s) (fun _ s1 => hs s1)
+
+theorem emitsAt_openCam (env : Env) (s : State) :
+    EmitsAt (openCam env) (pairSubs env.openCtrlFirst .ctrlOpen .strmOpen) s :=
+  emitsAt_handlePair _ (emitsAt_ctrlOpenOp env) (emitsAt_strmOpenOp env) s
 
 theorem emitsAt_loadContext (env : Env) (s : State) : EmitsAt (loadContext env) [.genapi] s := by
   unfold loadContext
@@ -236,7 +244,7 @@ theorem emitsAt_startBody (env : Env) (cap : Nat) (s : State) :
     (emitsAt_acqStartOp env s5) (fun _ s6 => emitsAt_loopStartOp env cap s6)
 
 theorem emitsAt_startStreaming (env : Env) (cap : Nat) (s : State) :
-    EmitsAt (startStreaming env cap) (expectedSubs (.start cap) s.dev) s := by
+    EmitsAt (startStreaming env cap) (expectedSubs env (.start cap) s.dev) s := by
   unfold startStreaming
   rw [EmitsAt, getDev_bind, ← EmitsAt]
   simp only [expectedSubs]
@@ -291,16 +299,17 @@ theorem emitsAt_stopStreaming (env : Env) (s : State) :
     exact emitsAt_pure () s
 
 theorem emitsAt_closeCam (env : Env) (s : State) :
-    EmitsAt (closeCam env) (expectedSubs .close s.dev) s := by
+    EmitsAt (closeCam env) (expectedSubs env .close s.dev) s := by
   unfold closeCam
   simp only [expectedSubs]
-  refine emitsAt_bind' (l2 := [.ctrlClose, .strmClose]) rfl (emitsAt_stopStreaming env s) (fun _ s1 => ?_)
-  refine emitsAt_bind' (l1 := [.ctrlClose]) (l2 := [.strmClose]) rfl (emitsAt_ctrlCloseOp env s1) (fun _ s2 => ?_)
-  exact emitsAt_bind' (l1 := [.strmClose]) (l2 := []) rfl (emitsAt_strmCloseOp env s2)
+  refine emitsAt_bind' (l2 := pairSubs env.closeCtrlFirst .ctrlClose .strmClose) rfl
+    (emitsAt_stopStreaming env s) (fun _ s1 => ?_)
+  exact emitsAt_bind' (l1 := pairSubs env.closeCtrlFirst .ctrlClose .strmClose) (l2 := []) (by simp)
+    (emitsAt_handlePair _ (emitsAt_ctrlCloseOp env) (emitsAt_strmCloseOp env) s1)
     (fun _ s3 => emitsAt_modify _ s3)
 
 theorem emitsAt_paramAccess (env : Env) (s : State) :
-    EmitsAt (paramAccess env) (expectedSubs .param s.dev) s := by
+    EmitsAt (paramAccess env) (expectedSubs env .param s.dev) s := by
   unfold paramAccess
   simp only [expectedSubs]
   cases hc : s.dev.ctxt with
@@ -319,7 +328,7 @@ theorem emitsAt_paramAccess (env : Env) (s : State) :
       exact emitsAt_subOp (by intro o ho hn; simp [errOf, nodeErr]) s
 
 theorem emitsAt_gateAccess (env : Env) (v : Nat) (s : State) :
-    EmitsAt (gateAccess env v) (expectedSubs (.gate v) s.dev) s := by
+    EmitsAt (gateAccess env v) (expectedSubs env (.gate v) s.dev) s := by
   unfold gateAccess
   simp only [expectedSubs]
   cases hc : s.dev.ctxt with
@@ -335,7 +344,7 @@ theorem emitsAt_gateAccess (env : Env) (v : Nat) (s : State) :
 
 /-- Master lemma: the effects of every call, in every state, under every fault plan. -/
 theorem emitsAt_call (env : Env) (op : Op) (s : State) :
-    EmitsAt (call env op) (expectedSubs op s.dev) s := by
+    EmitsAt (call env op) (expectedSubs env op s.dev) s := by
   cases op with
   | «open» => exact emitsAt_openCam env s
   | load => exact emitsAt_loadContext env s
@@ -477,6 +486,15 @@ theorem triple_snd {α : Type} {P Q : State → Prop} {m : M α}
   | ok a => exact h1 a s1 hm
   | err e => exact h2 e s1 hm
   | panic => exact h3 s1 hm
+
+/-- an invariant kept by both handle operations is kept by the pair, in either order -/
+theorem triple_handlePair {P : State → Prop} {b : Bool} {c s : M Unit}
+    (hc : Triple P c (fun _ => P) P) (hs : Triple P s (fun _ => P) P) :
+    Triple P (handlePair b c s) (fun _ => P) P := by
+  unfold handlePair
+  split
+  · exact triple_bind hc (fun _ => hs)
+  · exact triple_bind hs (fun _ => hc)
 
 /-! ### Invariant 1: the streaming flag tracks the live loops (all outcomes, all fault plans) -/
 
@@ -635,8 +653,8 @@ theorem loopInv_call (env : Env) (op : Op) :
       (fun _ => LoopInv env.stopFailKills) (LoopInv env.stopFailKills) := by
   cases op with
   | «open» =>
-    exact triple_bind (loopInv_frame_subOp (by simp) (by simp) (by simp) (by simp))
-      (fun _ => loopInv_frame_subOp (by simp) (by simp) (by simp) (by simp))
+    exact triple_handlePair (loopInv_frame_subOp (by simp) (by simp) (by simp) (by simp))
+      (loopInv_frame_subOp (by simp) (by simp) (by simp) (by simp))
   | load =>
     refine triple_bind (R := fun _ => LoopInv env.stopFailKills) ?_ (fun x => ?_)
     · exact triple_bind (loopInv_frame_subOp (by simp) (by simp) (by simp) (by simp))
@@ -646,8 +664,8 @@ theorem loopInv_call (env : Env) (op : Op) :
   | stop => exact loopInv_stopStreaming env
   | close =>
     refine triple_bind (loopInv_stopStreaming env) (fun _ => ?_)
-    refine triple_bind (loopInv_frame_subOp (by simp) (by simp) (by simp) (by simp)) (fun _ => ?_)
-    refine triple_bind (loopInv_frame_subOp (by simp) (by simp) (by simp) (by simp)) (fun _ => ?_)
+    refine triple_bind (triple_handlePair (loopInv_frame_subOp (by simp) (by simp) (by simp) (by simp))
+      (loopInv_frame_subOp (by simp) (by simp) (by simp) (by simp))) (fun _ => ?_)
     exact triple_modify (fun _ h => h)
   | param =>
     refine triple_bind (R := fun _ => LoopInv env.stopFailKills)
@@ -838,27 +856,35 @@ theorem good_closeCam (env : Env)
   unfold closeCam
   refine triple_bind (triple_conseq (good_stopStreaming env hprot) (fun _ h => h) (fun _ _ h => h)
     (okp_weaken (fun _ h => h.elim))) (fun _ => ?_)
-  refine triple_bind (R := fun _ => OkP H t0 (fun d => (Good d ∧ d.loopFlag = false) ∧ d.ctrlOpen = false))
-    (okp_subOp ?_ ?_) (fun _ => ?_)
-  · rintro d ⟨⟨⟨hft, hen, hlk, hac, hch⟩, hc1, hc2⟩, hf⟩
-    exact ⟨⟨⟨⟨hft, hen, hlk, hac, hch⟩, hc1, hc2⟩, hf⟩, rfl⟩
-  · intro o ho
+  have hfail : ∀ (k : Sub) {B : Dev → Prop}, (∀ d, B d → Good d) →
+      ∀ o, o ≠ Out.ok → ¬ H ⟨k, o⟩ ∨ ∀ d, B d → GE (id d) := by
+    intro k B hB o ho
     rcases hfree with h1 | h2
     · exact Or.inl (h1 _ o ho)
-    · exact Or.inr (fun d hB => h2 d hB.1)
+    · exact Or.inr (fun d hd => h2 d (hB d hd))
   refine triple_bind
-    (R := fun _ => OkP H t0 (fun d => ((Good d ∧ d.loopFlag = false) ∧ d.ctrlOpen = false) ∧ d.strmOpen = false))
-    (okp_subOp ?_ ?_) (fun _ => ?_)
-  · rintro d ⟨⟨⟨⟨hft, hen, hlk, hac, hch⟩, hc1, hc2⟩, hf⟩, ho⟩
-    exact ⟨⟨⟨⟨⟨hft, hen, hlk, hac, hch⟩, hc1, hc2⟩, hf⟩, ho⟩, rfl⟩
-  · intro o ho
-    rcases hfree with h1 | h2
-    · exact Or.inl (h1 _ o ho)
-    · exact Or.inr (fun d hB => h2 d hB.1.1)
+    (R := fun _ => OkP H t0 (fun d => (Good d ∧ d.loopFlag = false) ∧ d.ctrlOpen = false ∧ d.strmOpen = false))
+    ?_ (fun _ => ?_)
+  · unfold handlePair
+    split
+    · refine triple_bind
+        (R := fun _ => OkP H t0 (fun d => (Good d ∧ d.loopFlag = false) ∧ d.ctrlOpen = false))
+        (okp_subOp ?_ (hfail _ (fun _ h => h.1))) (fun _ => okp_subOp ?_ (hfail _ (fun _ h => h.1.1)))
+      · rintro d ⟨⟨⟨hft, hen, hlk, hac, hch⟩, hc1, hc2⟩, hf⟩
+        exact ⟨⟨⟨⟨hft, hen, hlk, hac, hch⟩, hc1, hc2⟩, hf⟩, rfl⟩
+      · rintro d ⟨⟨⟨⟨hft, hen, hlk, hac, hch⟩, hc1, hc2⟩, hf⟩, ho⟩
+        exact ⟨⟨⟨⟨hft, hen, hlk, hac, hch⟩, hc1, hc2⟩, hf⟩, ho, rfl⟩
+    · refine triple_bind
+        (R := fun _ => OkP H t0 (fun d => (Good d ∧ d.loopFlag = false) ∧ d.strmOpen = false))
+        (okp_subOp ?_ (hfail _ (fun _ h => h.1))) (fun _ => okp_subOp ?_ (hfail _ (fun _ h => h.1.1)))
+      · rintro d ⟨⟨⟨hft, hen, hlk, hac, hch⟩, hc1, hc2⟩, hf⟩
+        exact ⟨⟨⟨⟨hft, hen, hlk, hac, hch⟩, hc1, hc2⟩, hf⟩, rfl⟩
+      · rintro d ⟨⟨⟨⟨hft, hen, hlk, hac, hch⟩, hc1, hc2⟩, hf⟩, hso⟩
+        exact ⟨⟨⟨⟨hft, hen, hlk, hac, hch⟩, hc1, hc2⟩, hf⟩, rfl, hso⟩
   apply triple_modify
   rintro s h
   refine h.same rfl ?_
-  rintro ⟨⟨⟨⟨⟨hft, hen, hlk, hac, hch⟩, hc1, hc2⟩, hf⟩, ho⟩, hso⟩
+  rintro ⟨⟨⟨⟨hft, hen, hlk, hac, hch⟩, hc1, hc2⟩, hf⟩, ho, hso⟩
   simp only [FlagTracksLoop, hf, Bool.false_eq_true, if_false] at hft hlk
   refine ⟨⟨⟨?_, ?_, ?_, ?_, ?_⟩, ?_, ?_⟩, ?_⟩
   · simpa [FlagTracksLoop, hf] using hft
@@ -870,11 +896,10 @@ theorem good_closeCam (env : Env)
   · exact hc2
   · exact ⟨hf, hft, hlk, by rw [hen, hf], by rw [hac, hf], ho, hso, rfl, hch hf⟩
 
-/-- `open`, `load_context` and params access keep `Good` whatever fails in them -/
 theorem good_openCam (env : Env) :
     Triple (OkP H t0 Good) (openCam env) (fun _ => OkP H t0 Good) (OkP H t0 Good) :=
-  triple_bind (good_frame_subOp (fun _ h => h) (fun _ h => h))
-    (fun _ => good_frame_subOp (fun _ h => h) (fun _ h => h))
+  triple_handlePair (good_frame_subOp (fun _ h => h) (fun _ h => h))
+    (good_frame_subOp (fun _ h => h) (fun _ h => h))
 
 theorem good_loadContext (env : Env) (hx : env.xml = Xml.full) :
     Triple (OkP H t0 Good) (loadContext env) (fun _ => OkP H t0 Good) (OkP H t0 Good) := by
@@ -1112,8 +1137,8 @@ theorem vis_stopStreaming (env : Env) :
 theorem vis_call (env : Env) (op : Op) : Triple (VisInv v0 t0) (call env op) (fun _ => (VisInv v0 t0)) (VisInv v0 t0) := by
   cases op with
   | «open» =>
-    exact triple_bind (vis_subOp (by intro d; simp [Dev.visible, applyEffect]) (by intro d; simp [Dev.visible]))
-      (fun _ => vis_subOp (by intro d; simp [Dev.visible, applyEffect]) (by intro d; simp [Dev.visible]))
+    exact triple_handlePair (vis_subOp (by intro d; simp [Dev.visible, applyEffect]) (by intro d; simp [Dev.visible]))
+      (vis_subOp (by intro d; simp [Dev.visible, applyEffect]) (by intro d; simp [Dev.visible]))
   | load =>
     refine triple_bind (R := fun _ => (VisInv v0 t0)) ?_ (fun x => ?_)
     · exact triple_bind (vis_subOp (by intro d; simp [Dev.visible, applyEffect]) (by intro d; simp [Dev.visible]))
@@ -1138,8 +1163,9 @@ theorem vis_call (env : Env) (op : Op) : Triple (VisInv v0 t0) (call env op) (fu
   | stop => exact vis_stopStreaming env
   | close =>
     refine triple_bind (vis_stopStreaming env) (fun _ => ?_)
-    refine triple_bind (vis_subOp (by intro d; simp [Dev.visible, applyEffect]) (by intro d; simp [Dev.visible])) (fun _ => ?_)
-    refine triple_bind (vis_subOp (by intro d; simp [Dev.visible, applyEffect]) (by intro d; simp [Dev.visible])) (fun _ => ?_)
+    refine triple_bind (triple_handlePair
+      (vis_subOp (by intro d; simp [Dev.visible, applyEffect]) (by intro d; simp [Dev.visible]))
+      (vis_subOp (by intro d; simp [Dev.visible, applyEffect]) (by intro d; simp [Dev.visible]))) (fun _ => ?_)
     exact triple_modify (fun _ h => h)
   | param =>
     refine triple_bind (R := fun _ => (VisInv v0 t0)) vis_paramsCtxt (fun _ => ?_)
@@ -1241,7 +1267,7 @@ theorem ord_stopStreaming (env : Env) :
 theorem ord_call (env : Env) (op : Op) :
     Triple (OrdP []) (call env op) (fun _ => OrdP []) (OrdP []) := by
   cases op with
-  | «open» => exact triple_bind (ord_free_subOp rfl) (fun _ => ord_free_subOp rfl)
+  | «open» => exact triple_handlePair (ord_free_subOp rfl) (ord_free_subOp rfl)
   | load =>
     refine triple_bind (R := fun _ => OrdP []) ?_ (fun x => ?_)
     · exact triple_bind (ord_free_subOp rfl) (fun _ => triple_pure (fun _ h => h))
@@ -1265,8 +1291,7 @@ theorem ord_call (env : Env) (op : Op) :
   | stop => exact ord_stopStreaming env
   | close =>
     refine triple_bind (ord_stopStreaming env) (fun _ => ?_)
-    refine triple_bind (ord_free_subOp rfl) (fun _ => ?_)
-    refine triple_bind (ord_free_subOp rfl) (fun _ => ?_)
+    refine triple_bind (triple_handlePair (ord_free_subOp rfl) (ord_free_subOp rfl)) (fun _ => ?_)
     exact triple_modify (fun _ h => h)
   | param =>
     refine triple_bind (R := fun _ => OrdP []) ord_paramsCtxt (fun _ => ?_)
